@@ -619,7 +619,14 @@ func genUserScript(r *rng) string {
 	}
 	n := r.rng(1, 5)
 	for i := 0; i < n; i++ {
-		b.WriteString(lines[r.intn(len(lines))])
+		if r.coin(3) {
+			// one very long line (a generated block list entry), around and beyond the usual reader buffer sizes
+			l := []int{4095, 4096, 4097, 8200, 12000}[r.intn(5)]
+			pre := "pc_append \"address=/"
+			b.WriteString(pre + strings.Repeat("a.example/", (l-len(pre)-20)/10) + strings.Repeat("x", (l-len(pre)-20)%10) + "/0.0.0.0\" $CONFIG ")
+		} else {
+			b.WriteString(lines[r.intn(len(lines))])
+		}
 		if r.coin(15) {
 			b.WriteString("\r")
 		}
